@@ -152,27 +152,37 @@ def site_vasp_direct(ctx, rid):
 
 
 def site_extxyz_lattice(ctx, rid):
+    """The Lattice converter of the extended-XYZ title parser (the nested function that reshapes to 3 x 3), interpreted
+    as a whole on the nine numbers of a model Lattice value, with angstrom standing for 1000."""
+    from ..accessors import AccessorEval, Raised
+    from ..symarr import NotSymbolic
+
     prog = ctx.prog
     outer = prog.func("iodata.formats.extxyz._parse_title")
     cands = [g for g in outer.nested.values() if any(isinstance(x, ast.Call) and getattr(x.func, "attr", "") == "reshape" for x in ast.walk(g.node))]
     if len(cands) != 1:
         raise AnalysisError("extxyz._parse_title: cannot find the Lattice converter")
     g = cands[0]
-    rets = [n for n in g.own_nodes() if isinstance(n, ast.Return) and n.value is not None]
-    if len(rets) != 1:
-        raise AnalysisError("extxyz Lattice converter: expected a single return")
-    e = rets[0].value
-    p0 = g.posparams[0]
-
-    def thunk():
-        w = sym_array("w", (9,))
-        ev = _SplitEval({p0: Words("lattice")}, prog, g, words={p0: list(w)})
-        got = ev.eval(e)
-        ang = Sym.atom("angstrom")
-        want = np.array([[w[3 * i + j] * ang for j in range(3)] for i in range(3)], dtype=object)
-        return got, want, 'Lattice="a1x a1y a1z a2x a2y a2z a3x a3y a3z" in angstrom: row i of cellvecs is lattice vector i'
-
-    _run(ctx, rid, g, e, "extended-XYZ Lattice", thunk)
+    A = 1000.0
+    nums = [1.5, 0.25, -0.5, 0.75, 2.5, 0.125, -1.0, 0.375, 3.5]
+    ev = AccessorEval(prog, None, limit=4000)
+    ev.module = g.module
+    ev._globals = {("iodata.utils", "angstrom"): A}
+    try:
+        got = ev.run_free(g, [" ".join(f"{v:.8f}" for v in nums)], {})
+    except Raised as exc:
+        ctx.violate(rid, f"extended-XYZ Lattice: the converter raises {exc.args[0]} on nine numbers", g, g.node, construct="extxyz lattice raises")
+        return
+    except NotSymbolic as exc:
+        raise AnalysisError(f"extended-XYZ Lattice converter is outside the evaluation whitelist: {exc}") from exc
+    want = np.array(nums).reshape(3, 3) * A
+    desc = 'Lattice="a1x a1y a1z a2x a2y a2z a3x a3y a3z" in angstrom: row i of cellvecs is lattice vector i'
+    got_ = np.asarray(got, dtype=float) if isinstance(got, np.ndarray) else None
+    if got_ is None or got_.shape != (3, 3) or np.abs(got_ - want).max() > 1e-6:
+        k = tuple(int(v) for v in np.argwhere(np.abs(got_ - want) > 1e-6)[0]) if got_ is not None and got_.shape == (3, 3) else None
+        ctx.violate(rid, f"extended-XYZ Lattice: " + (f"cellvecs[{k[0]}, {k[1]}] is {got_[k]:g} (angstrom = {A:g}), expected number {3 * k[0] + k[1] + 1} of the value x angstrom = {want[k]:g}" if k else f"the converter returns {got!r}") + f"; expected {desc}", g, g.node, construct="extxyz lattice: entries misplaced or unconverted")
+    else:
+        ctx.ok(rid, f"extended-XYZ Lattice: {desc}", f"{g.module.relpath}:{g.lineno}")
 
 
 def _fchk_pair(ctx, rid, label, writer_env_builder, reader_env_builder, shape, desc, want=None):
